@@ -540,3 +540,81 @@ pub fn run_c09_big(ctx: &mut Ctx) -> R {
     }
     Ok(())
 }
+
+
+/// The deterministic short-length sweep of DESIGN 3/C01: every stream length 1..=70 for a drawn
+/// (block 16/32, max LPC order, low-amplitude signal family, mono/stereo) cell — the region where the
+/// final block is shorter than twice the predictor order. Judged by the crate's decoder (C01) or by
+/// refflac (C02).
+pub fn run_short_sweep(ctx: &mut Ctx) -> R {
+    use flac_codec::encode::FlacSampleWriter;
+    let ch = ctx.ch.clone();
+    let block = *ch.pick("ss.block", &[16u16, 32]);
+    let lpc = *ch.pick("ss.lpc", &[None, Some(1u8), Some(2), Some(4), Some(8), Some(12), Some(32)]);
+    let fam = *ch.pick("ss.fam", &[3u64, 5, 10, 9, 7, 1]);
+    let channels = 1 + ch.draw("ss.ch", 2) as u8;
+    let bps = *ch.pick("ss.bps", &[16u32, 8, 24, 4, 12]);
+    let part = *ch.pick("ss.part", &[5u32, 0, 1, 2, 3, 4, 15]);
+    let seed = ch.raw("ss.sig");
+    let cfg = Cfg {
+        channels,
+        bps,
+        rate: 44100,
+        block,
+        lpc,
+        part,
+        mid_side: ch.draw("ss.ms", 2) == 0,
+        fast: ch.draw("ss.fast", 2) == 1,
+        win: Win::Tukey(0.5),
+        declare_total: ch.draw("ss.declare", 2) == 1,
+        seek: SeekPolicy::Off,
+        padding: None,
+        offset: 0,
+        tags: 0,
+    };
+    ctx.describe(|| format!("every length 1..=70: {} family={fam}", cfg.describe()));
+    probe("short_length_sweep_cell");
+    for len in 1..=70usize {
+        let mut rng = crate::rng::Xoshiro::new(seed ^ len as u64);
+        let chans: Vec<Vec<i32>> = (0..channels).map(|_| gen_channel(fam, &mut rng, len, bps)).collect();
+        let mut inter = Vec::with_capacity(len * channels as usize);
+        for i in 0..len {
+            for c in &chans {
+                inter.push(c[i]);
+            }
+        }
+        let mut cur = std::io::Cursor::new(Vec::new());
+        let declared = cfg.declare_total.then_some(inter.len() as u64);
+        let r = FlacSampleWriter::new(&mut cur, cfg.options(), cfg.rate, cfg.bps, cfg.channels, declared).and_then(|mut w| {
+            w.write(&inter)?;
+            w.finalize()
+        });
+        ctx.eval_fp(crate::rng::mix(len as u64, r.is_ok() as u64), true);
+        if let Err(e) = r {
+            if ctx.is("C01") {
+                return viol("encode-failed", format!("length {len}: valid input refused: {e:?}"));
+            }
+            continue;
+        }
+        let bytes = cur.into_inner();
+        if ctx.is("C01") {
+            let d = decode_all(std::io::Cursor::new(&bytes), RKind::SampleToEnd, &ch, block as usize);
+            if d.err.is_some() || d.samples != inter {
+                return viol("not-lossless", format!("length {len} ({} samples): decoded {} samples, error {:?}", inter.len(), d.samples.len(), d.err));
+            }
+        } else {
+            match refflac::parse_stream(&bytes, 0) {
+                Ok(s) => {
+                    if !s.is_valid() || s.pcm() != inter {
+                        return viol("nonconforming:frame", format!("length {len}: {:?} {:?}", s.end, s.hard.first()));
+                    }
+                    if let Some(x) = s.strict.first() {
+                        return viol("nonconforming:rule", format!("length {len}: {x}"));
+                    }
+                }
+                Err(e) => return viol("nonconforming:metadata", format!("length {len}: {e:?}")),
+            }
+        }
+    }
+    Ok(())
+}
